@@ -184,6 +184,13 @@ def run(ck):
             ck.note('corpus/C06/%s is not the rendering of shadow_witnesses.CORPUS[%s]' % (os.path.basename(f), c.id))
         if c.r_rc == 0 or c.r_binary:
             ck.fail(c.id + ':gate-open', 'corpus program with a false shadow assertion: nanoc rc=%s binary=%s' % (c.r_rc, c.r_binary), S.replay_dict(c))
+    # deterministic family "control-flag leaks" (shared with C03): every assertion holds, so the gate must open
+    fam = S.flag_family()
+    S.run_models(nv3, nvl, fam)
+    S.run_real(b, fam, 'c06f', want_native=False)
+    for c in fam:
+        record(ck, c, 'gen')
+    ck.extra['control_flag_family'] = dict(programs=len(fam), constructs=sum(len(c.flag_labels) for c in fam))
     # 2. main stream: all placements of the failing assertion; some functions lose their shadow block
     cfg = S.stream_cfg(openk)
     n = 1200 if ck.thorough else 108
